@@ -2,43 +2,43 @@
 # Regenerates MANIFEST.json from the table below (single source of truth for the registered checks).
 import json, subprocess
 claimed = {
- "C01": ("cache actor driven directly through the verif-tagged export hook: seeded operation sequences (sync/update/refilter with malformed versions, duplicates, empty lists) plus a one-step sweep of an 120-operation alphabet from sampled states; every List/Get compared with an executable reference cache; panics and wedges detected by the scheduler",
+ "C01": ("cache actor driven directly through the verif-tagged export hook: seeded operation sequences (sync/update/refilter with malformed versions, duplicates, empty lists) plus a one-step sweep of an 120-operation alphabet from sampled states; every List/Get compared with an executable reference cache; panics and wedges detected by the scheduler; since the seeded-defect waves also: versions shifted across the 64-bit range, cluster-scoped (no namespace) and concatenation-colliding keys, bulk populations of 70..200 objects with mass removals, long-lived caches (260..560 operations), GetObject with a stale caller-side copy, every returned slice destroyed after use",
          "reference model written from the statement (sequential upsert semantics; stale deletes and rejected-newer-then-accepted-older duplicates adopt the implementation's outcome); pure filter semantics trusted (C18)"),
- "C02": ("same runs as C01: the events returned by each mutation are replayed strictly (Create only if absent, Update only if strictly newer, Delete only if present) over the previous content and must give the new content; event multiset must equal the reference delta (minimality) except for lists with duplicate keys",
+ "C02": ("same runs as C01: the events returned by each mutation are replayed strictly (Create only if absent, Update only if strictly newer, Delete only if present) over the previous content and must give the new content; event multiset must equal the reference delta (minimality) except for lists with duplicate keys; same extensions as C01 (bulk, long-lived, 64-bit versions, special keys)",
          "as C01"),
- "C03": ("real controller over a simulated API server; histories of creates/updates/deletes, refresh periods 50ms..60s, list latencies up to 5 periods, fault plan (connect errors/hangs, stream closes, drops, duplicates, replays, status/bookmark/bad frames, dead watch), small buffers; oracles: dead-watch exactness per list, convergence after one relist once the server quiesces, healthy-watch equality at every quiescent point, subscriber mirror == cache, watch versions never invented",
+ "C03": ("real controller over a simulated API server; histories of creates/updates/deletes, refresh periods 50ms..60s, list latencies up to 5 periods, fault plan (connect errors/hangs, stream closes, drops, duplicates, replays, status/bookmark/bad frames, dead watch), small buffers; oracles: dead-watch exactness per list, convergence after one relist once the server quiesces, healthy-watch equality at every quiescent point, subscriber mirror == cache, watch versions never invented; plus: server version counters starting right below powers of ten and far up the 64-bit range, log compaction (410 Gone as call error and as frame), stale frames replayed on an idle connection, bulk initial populations, many error values, builder setters in drawn order",
          "simulated API server models list/watch as kcache uses it; liveness judged in simulated time with starvation/stall switched off after faults stop"),
- "C04": ("relisting disabled (period 10000h), watch faults {server close mid/after burst/idle, connect errors, status and bookmark frames} at drawn positions of 1..60 writes, starvation of controller/watcher/session/pump; oracle: cache == server and subscriber mirror == cache within 1.5s (retry delay 1s) after the last fault, resume versions only from sent events, never regressing",
+ "C04": ("relisting disabled (period 10000h), watch faults {server close mid/after burst/idle, connect errors, status and bookmark frames} at drawn positions of 1..60 writes, starvation of controller/watcher/session/pump; oracle: cache == server and subscriber mirror == cache within 1.5s (retry delay 1s) after the last fault, resume versions only from sent events, never regressing; plus: connect errors of several kinds (opaque, url.Error timeout, wrapped context.Canceled), a behind resume version refused once with 410, in-band 410 frames, long streams (hundreds of writes), version bases crossing a power of ten",
          "runs in which a watch buffer overflowed are outside the premise (bursts <= EventBufsiz/4) and are counted, not judged"),
 }
 claimed.update({
- "C05": ("Subscribe/Clone trees up to depth 3 with up to 8 leaves, late subscribers, <= 20 events in flight against a buffer of 100, logger/map-order/scheduling perturbed; oracles: each leaf's sequence is a suffix of the first witness's (same order, no duplicate, no omission), late subscribers miss nothing written after their creation returned, Cache().Get right after an event is never older than the event, strict replay mirrors",
+ "C05": ("Subscribe/Clone trees up to depth 3 with up to 8 leaves, late subscribers, <= 20 events in flight against a buffer of 100, logger/map-order/scheduling perturbed; oracles: each leaf's sequence is a suffix of the first witness's (same order, no duplicate, no omission), late subscribers miss nothing written after their creation returned, Cache().Get right after an event is never older than the event, strict replay mirrors; plus: up to 40 subscribers per publisher, siblings closed mid-stream, bulk populations, and (one run in ten) a server that keeps one live object per key, mutates it in place and re-sends the pointer",
          "healthy API server; event identity = (type, key, resourceVersion) with unique versions per write"),
- "C06": ("nested SubscribeWithFilter/SubscribeForFilter/CloneWithFilter/CloneForFilter trees (depth <= 3) with plain subscribers below, label-moving histories, 0..n Refilter calls per node racing with readiness, parent events and relists (per node serialised, since 'most recent filter' is only defined for ordered calls); at every quiescent point node cache == filter(parent cache) and mirror == cache",
+ "C06": ("nested SubscribeWithFilter/SubscribeForFilter/CloneWithFilter/CloneForFilter trees (depth <= 3) with plain subscribers below, label-moving histories, 0..n Refilter calls per node racing with readiness, parent events and relists (per node serialised, since 'most recent filter' is only defined for ordered calls); at every quiescent point node cache == filter(parent cache) and mirror == cache; plus: random filter terms over every constructor of the filter package (nested, duplicated and reordered children), refilters racing with in-flight parent updates, small buffers, many-operations profile",
          "filters drawn from a 10-member family incl. separately constructed equal filters and a non-comparable FN filter; pure filter semantics trusted (C17/C18); after a logged buffer overflow filtered equality is not demanded"),
- "C07": ("scripted: ready filtered subscription (or subscriber below a filtered clone), quiescence, Refilter(f2), quiescence; all 100 ordered pairs of the filter family enumerated round-robin, third filter sampled (incl. A->B->A), optional parent change between refilters; events between the barriers must be exactly one Delete per cached object f2 rejects plus one Create per newly accepted parent object",
+ "C07": ("scripted: ready filtered subscription (or subscriber below a filtered clone), quiescence, Refilter(f2), quiescence; all 100 ordered pairs of the filter family enumerated round-robin, third filter sampled (incl. A->B->A), optional parent change between refilters; events between the barriers must be exactly one Delete per cached object f2 rejects plus one Create per newly accepted parent object; the other half of the runs uses random terms over every filter constructor and near-miss pairs; one run in ten is a sequence of 6..40 refilters over a small pool of filters with drained parent changes in between",
          "as C06"),
- "C08": ("first list held by the fake server and released (or failed) as an explicit operation; operation orders over {release, Refilter(equal), Refilter(new), write, subscribe, settle} up to length 6 enumerated by run index; per-step invariants: no event queued on Events() while Ready() is open, Ready(node) implies Ready(parent), deferred nodes ready only after a Refilter was submitted, failed first list never ready; content read at the instant Ready is observed equals the filter over the (static) parent",
+ "C08": ("first list held by the fake server and released (or failed) as an explicit operation; operation orders over {release, Refilter(equal), Refilter(new), write, subscribe, settle} up to length 6 enumerated by run index; per-step invariants: no event queued on Events() while Ready() is open, Ready(node) implies Ready(parent), deferred nodes ready only after a Refilter was submitted, failed first list never ready; content read at the instant Ready is observed equals the filter over the (static) parent; the held first list fails in every failure kind in turn (errors of several values, list plus error, non-list, Status object, ...); monitor callbacks make API calls",
          "the content-at-readiness oracle applies to runs where the server is static and the node has no filtered ancestor (otherwise the parent itself moves)"),
- "C10": ("trees with stalled (never reading) and slow readers, filtered clones, monitors with blocking handlers; EventBufsiz 2..100; streams up to 5x the buffer delivered in bursts that healthy stages can absorb; healthy leaves keep strict mirrors (complete sequence), caches stay exact, what a stalled leaf finally drains is an in-order subsequence of a healthy sibling's sequence and at least min(published, buffer) long",
+ "C10": ("trees with stalled (never reading) and slow readers, filtered clones, monitors with blocking handlers; EventBufsiz 2..100; streams up to 5x the buffer delivered in bursts that healthy stages can absorb; healthy leaves keep strict mirrors (complete sequence), caches stay exact, what a stalled leaf finally drains is an in-order subsequence of a healthy sibling's sequence and at least min(published, buffer) long; plus: consumers closed mid-stream, refilters (multi-event batches) while consumers are stalled, stalled consumers that catch up by a few events at quiescent points and stall again (the count oracle replays the buffer over the witness sequence)",
          "starvation strategies are excluded here: a starved publisher overflows its own feed, which is not consumer isolation"),
- "C11": ("mixed trees (all six Subscribe*/Clone* kinds, monitors) up to depth 4 under traffic; one node (or the root via Close / context cancel) closed at a drawn position, synchronously or from a racing goroutine; Done() closed for exactly that subtree, readers of closed nodes see the closed Events() channel, survivors receive a later probe write and pass all cache/mirror checks",
+ "C11": ("mixed trees (all six Subscribe*/Clone* kinds, monitors) up to depth 4 under traffic; one node (or the root via Close / context cancel) closed at a drawn position, synchronously or from a racing goroutine; Done() closed for exactly that subtree, readers of closed nodes see the closed Events() channel, survivors receive a later probe write and pass all cache/mirror checks; plus: API calls from inside monitor callbacks (close self / parent / root, list, subscribe), a churn profile (5..40 consumers coming and going below one publisher), handlers from one reused HandlerBuilder",
          "joins are exercised by C09"),
- "C12": ("shutdown-point sweep: Close / 3 concurrent Closes / context cancel injected at a scheduler step drawn over the run (one run in four enumerates early steps one by one), with watch connect hangs/errors, hanging lists and API calls racing; Close() and Done() within 1 ms of simulated time, zero live library goroutines afterwards (registry by creation site), API calls return ErrNotRunning, racing Subscribe/Clone yields a dead object",
+ "C12": ("shutdown-point sweep: Close / 3 concurrent Closes / context cancel injected at a scheduler step drawn over the run (one run in four enumerates early steps one by one), with watch connect hangs/errors, hanging lists and API calls racing; Close() and Done() within 1 ms of simulated time, zero live library goroutines afterwards (registry by creation site), API calls return ErrNotRunning, racing Subscribe/Clone yields a dead object; fault mix extended by status/bookmark/malformed/duplicate frames and in-band 410 frames; API calls from monitor callbacks",
          "premise honoured by the fake client: List/Watch return once their context is cancelled"),
- "C13": ("(period, latency/period in {0, .5, .95, 1.05, 2, 5}, starved lister/ticker/controller) grid on the simulated clock, both timer-channel semantics (Go <= 1.22 and >= 1.23); never two lists in flight, next list no earlier than 0.9 period after the previous returned, progress bound in stall-free runs, a further list within one cycle once perturbation stops, prompt clean Close at a drawn point of the cycle",
+ "C13": ("(period, latency/period in {0, .5, .95, 1.05, 2, 5}, starved lister/ticker/controller) grid on the simulated clock, both timer-channel semantics (Go <= 1.22 and >= 1.23); never two lists in flight, next list no earlier than 0.9 period after the previous returned, progress bound in stall-free runs, a further list within one cycle once perturbation stops, prompt clean Close at a drawn point of the cycle; one run in six scripts a failing k-th list (nine error values): the controller must fail-stop or keep relisting; long horizons (120..420 periods); the refresh period reaches the lister through builder setters called in a drawn order",
          "time bounds are judged with the stall move switched off"),
- "C14": ("list failure kind {error, non-list, list of non-objects, no Items, nil} x position k=1..5 enumerated by run index with subscriber trees attached: Done() closes, Error() non-nil and naming the cause, Ready() stays open for k=1, whole subtree down; watch failures of every kind and dead watches never stop the controller; deliberate Close() leaves Error() == nil",
+ "C14": ("list failure kind {error, non-list, list of non-objects, no Items, nil} x position k=1..5 enumerated by run index with subscriber trees attached: Done() closes, Error() non-nil and naming the cause, Ready() stays open for k=1, whole subtree down; watch failures of every kind and dead watches never stop the controller; deliberate Close() leaves Error() == nil; failure kinds now: opaque error, (empty typed list, err), (full list, err), url.Error timeout, url.Error canceled, bare context.Canceled / DeadlineExceeded, kcache.ErrNotRunning bare and wrapped, non-list, list of non-objects, no Items, Status object, nil",
          ""),
- "C15": ("cache actor with 1-2 writers (sync/update/refilter, unique versions) and 1-6 readers (List/Get, some scribbling on the returned slice); cache.go rebuilt with a preemption point before every statement; recorded invoke/return history (global event counter) checked with porcupine against the reference cache (10 s budget, Unknown never reported); one run in eight uses complete states of 9..1030 objects (readers must only see complete states, never go backwards)",
+ "C15": ("cache actor with 1-2 writers (sync/update/refilter, unique versions) and 1-6 readers (List/Get, some scribbling on the returned slice); cache.go rebuilt with a preemption point before every statement; recorded invoke/return history (global event counter) checked with porcupine against the reference cache (10 s budget, Unknown never reported); one run in eight uses complete states of 9..1030 objects (readers must only see complete states, never go backwards); readers use List, Get and GetObject; one run in six cancels the cache's context at a random scheduler step (a failed write is 'applied or not' in a nondeterministic porcupine model, every read that still succeeds must linearize)",
          "also: an ownership tracker (kcinstr -owner) reports any mutable field of cache.go's structs touched by two goroutines without lock / initialise-then-spawn ordering as data-race:<field>; hardware reordering is outside a schedule-level simulator; full vector-clock happens-before was not built"),
- "C16": ("monitors on controllers, clones and filtered clones with handlers that sleep on the simulated clock or yield; Close of monitor/publisher/root incl. before readiness; OnInitialize first and at most once, no callback before the publisher is ready, never two callbacks at once, none after Done(), init list + callbacks replay to the publisher cache",
+ "C16": ("monitors on controllers, clones and filtered clones with handlers that sleep on the simulated clock or yield; Close of monitor/publisher/root incl. before readiness; OnInitialize first and at most once, no callback before the publisher is ready, never two callbacks at once, none after Done(), init list + callbacks replay to the publisher cache; monitors close themselves / their parent / the root, list and subscribe from inside their n-th callback; handlers from one reused HandlerBuilder; OnInitialize lists are destroyed by the handler",
          "replay tolerates the documented overlap between the initial List() and already queued events; typed monitors are covered by C20"),
 })
 claimed.update({
- "C09": ("two or three simulated API servers (source type, destination type, services for the double join), real typed controllers, every one of the eight generated joins, IngressPods and the ...With variants in turn (run index mod 9); histories where sources appear, change selector, move namespace and disappear while destinations change labels; join cache == {destination objects selected by the library's own selection function over the server's current sources} at quiescence, join ready only after both bases, mirror of the join's events == its cache, Close() of the result leaves the goroutine population of the long-lived bases exactly as before (1..20 create/close cycles), bases keep working",
+ "C09": ("two or three simulated API servers (source type, destination type, services for the double join), real typed controllers, every one of the eight generated joins, IngressPods and the ...With variants in turn (run index mod 9); histories where sources appear, change selector, move namespace and disappear while destinations change labels; join cache == {destination objects selected by the library's own selection function over the server's current sources} at quiescence, join ready only after both bases, mirror of the join's events == its cache, Close() of the result leaves the goroutine population of the long-lived bases exactly as before (1..20 create/close cycles), bases keep working; plus: a join context of its own that ends right after construction, an overrun profile (EventBufsiz 2..8, the join's monitor starved, bursts of 1..4 buffers on one source; expected selection computed from what the base controllers hold), bulk destinations, decisive ordering bursts, closing the destination base under a live join, 1..20 create/close cycles with a goroutine-population leak check",
          "the pure selection filters (PodsFilter/ServicesFilter) are trusted (C19); typed controllers use the library's fixed 1 min refresh period"),
- "C20": ("each of the 12 typed packages in turn (run index mod 12): one simulated API server of that kind, a typed controller and an untyped core controller side by side, the same script (tree of Subscribe*/Clone*/monitors, refilters, closes, writes) applied to both at quiescent points, foreign-typed objects in lists and watch frames in half of the runs; typed caches, event sequences (up to intra-batch order), monitor callbacks, readiness and lifecycle must equal the untyped ones restricted to the package's type; foreign objects never visible, never a nil callback",
+ "C20": ("each of the 12 typed packages in turn (run index mod 12): one simulated API server of that kind, a typed controller and an untyped core controller side by side, the same script (tree of Subscribe*/Clone*/monitors, refilters, closes, writes) applied to both at quiescent points, foreign-typed objects in lists and watch frames in half of the runs; typed caches, event sequences (up to intra-batch order), monitor callbacks, readiness and lifecycle must equal the untyped ones restricted to the package's type; foreign objects never visible, never a nil callback; every fourth run exercises one of the eight generated joins (incl. the overrun profile); stalled typed subscribers with 2..5-slot buffers; two goroutines racing Refilter on one typed node followed by a sequential equal filter",
          "decided in part: textual/AST equality of generated files with their templates and the REST paths built by client.ForResource are static / pure request-construction properties outside deterministic simulation and are NOT claimed; joins are compared against each other by C09"),
 })
 pending = {}
